@@ -250,6 +250,7 @@ func RunBubble(t *testing.T, spec SchedSpec, seed uint64, body func(e *Env)) (re
 		}
 	}
 	setMapSeed(Mix(seed, 0x3a95))
+	lib.VerifUniq = Mix(seed, 0x11d)&((1<<60)-1) | 1<<40
 	defer func() {
 		clearMapSeed()
 		curSched.Store(nil)
